@@ -325,7 +325,7 @@ def main(tier):
             rep.inconc("run: %s" % r.get("note"))
     from vf.props import glue
     try:
-        gfind, gok, grun = glue.analyse()
+        gfind, gok, genc, gnotes = glue.analyse_all()
         witnesses += glue.witnesses_for(PROP, gfind)
     except common.Inconclusive as e:
         rep.inconc(str(e))
